@@ -763,3 +763,237 @@ class position_coords:
 
     def effects(old, s, a, result):
         _cache_effects(old, s, a.maxcol)
+
+
+# ------------------------------------------------------------------------------------------------ Edit.get_cursor_coords
+
+def clamp_into(x, maxcol):
+    """x pulled into the columns 0 .. maxcol-1 of the widget"""
+    return imin(imax(x, 0), maxcol - 1)
+
+
+class Cursor:
+    """What one call of Edit.get_cursor_coords((maxcol,)) -> (x, y) established: `cell` is the cell of the character at
+    the cursor offset in the LAYOUT of the text shown (CellOf: the first segment that holds the offset); when there is
+    one, (x, y) is that cell with its column pulled into the widget (the cursor's line is displayed shifted by exactly
+    that much, see Edit.get_line_translation)."""
+
+    def __init__(self, cell, maxcol, xy):
+        self.cell, self.maxcol, self.xy = cell, maxcol, xy
+
+    def facts(self):
+        c, (x, y) = self.cell, self.xy
+        yield "reported-cursor-is-the-cell-of-the-character-at-the-cursor-offset-pulled-into-the-widget", implies(c.held, both(x == clamp_into(c.x, self.maxcol), y == c.y))
+        yield "inside-the-widget", implies(c.held, both(0 <= x, x < self.maxcol, 0 <= y, y < nlines(c.layout)))
+
+
+def cursor_of(old, maxcol):
+    """(callee views) the record of get_cursor_coords((maxcol,))"""
+    st = cur()
+    c = CellOf.some(shown(old), Lay(old, maxcol), cursor_index(old), "cursor")
+    r = Cursor(c, maxcol, (ite(c.held, clamp_into(c.x, maxcol), st.fresh_int("cx")), ite(c.held, c.y, st.fresh_int("cy"))))
+    for _l, f in r.facts():
+        st.assume(f)
+    st.ghost.setdefault("cursors", []).append(r)
+    return r
+
+
+def _cursor_clauses(old, maxcol, loc, result):
+    """(proof goals) the Cursor record of a call that went through position_coords(maxcol, edit_pos) -> record `loc`"""
+    c = loc.view.cell
+    mine = CellOf(shown(old), Lay(old, maxcol), cursor_index(old), c.x, c.y, c.wj, c.held)
+    for label, f in mine.clauses():
+        yield "cursor-cell/" + label, f
+    yield from Cursor(mine, maxcol, result).facts()
+
+
+@contract(ED + "Edit.get_cursor_coords", property=("C10", "C09", "C01"), inline=(ED + "Edit.edit_pos",), **GEOKW)
+class get_cursor_coords:
+    params = dict(size=Tup(Int))
+    result = Tup(Int, Int)
+    raises = ()
+    modifies = CACHE + ("_shift_view_to_cursor",)
+
+    def requires(s, a):
+        return a.size[0] >= 1
+
+    def ensures(old, s, a, result):
+        locs = cur().ghost.get("located", [])
+        yield "position-of-the-cursor-offset-looked-up-once-with-the-view-following-the-cursor", both(len(locs) == 1, (locs[0].view is not None and eq(locs[0].cell.pos, cursor_index(old))) if locs else False)
+        if len(locs) == 1 and locs[0].view is not None:
+            yield from _cursor_clauses(old, a.size[0], locs[0], result)
+        yield "view-follows-the-cursor-from-now-on", eq(s._shift_view_to_cursor, True)
+        yield "layout-cached", layout_cached(old, s, a.size[0])
+        yield "editor-untouched", editor_same(old, s)
+
+    def pure_spec(old, a):
+        return cursor_of(old, a.size[0]).xy
+
+    ensures_callee = staticmethod(_nothing_more)
+
+    def effects(old, s, a, result):
+        _cache_effects(old, s, a.size[0])
+        s.fields["_shift_view_to_cursor"] = True
+
+
+# ------------------------------------------------------------------------------------------------ render
+
+from contracts.proto_widget import canvas_shape  # noqa: E402
+
+from urwid import canvas as _canvas  # noqa: E402
+
+TEXTCANVAS = canvas_shape(_canvas.TextCanvas)
+
+
+@contract("urwid/canvas.py:apply_text_layout", property=(), assumed=True, alias="for-an-edit",
+          notes="(used through contract_overrides of Text.render on an Edit receiver) canvas protocol for laid-out text, as in "
+                "contracts/C01_text.py / C03_text.py: a TextCanvas `maxcol` columns wide with one row per line of the translation and no "
+                "cursor.  Its CanvasError exits (a line wider than maxcol after trimming) are excluded: that the lines of a layout "
+                "structure trimmed by trim_line fit is C03's claim (trim_line is verified there), the canvas itself is C02's; both are "
+                "decided on Edit renderings by the bounded stand-ins of C01 / C10.")
+class apply_text_layout_e:
+    params = dict(text=STR, attr=ATTRIB, ls=LAYOUT, maxcol=Int)
+    result = TEXTCANVAS
+
+    def requires(a):
+        return a.maxcol >= 0
+
+    def ensures(a, r):
+        yield "size", both(r.ncols == a.maxcol, r.nrows == nlines(a.ls), mk_bool(r.cursor.isnone), neg(r.noshards))
+
+
+@contract(TX + "Text.render", property=("C10", "C01"), alias="edit-receiver", contract_overrides={"urwid/canvas.py:apply_text_layout": apply_text_layout_e}, **GEOKW)
+class text_render_on_edit:
+    """Text.render's body run on an Edit (Edit.render calls it as `Text.render.original_fn(self, size, focus)`): the text
+    shown, laid out by Edit.get_line_translation -- the cursor's line shifted when the view follows the cursor."""
+    params = dict(size=Tup(Int), focus=Bool)
+    result = TEXTCANVAS
+    raises = ()
+    modifies = CACHE
+
+    def requires(s, a):
+        return a.size[0] >= 1
+
+    def ensures(old, s, a, r):
+        maxcol = a.size[0]
+        yield "as-wide-as-asked", r.ncols == maxcol
+        yield "one-row-per-line-of-the-layout-of-the-text-shown", r.nrows == nlines(Lay(old, maxcol))
+        yield "no-cursor", opt_isnone(r.cursor)
+        yield "layout-cached", layout_cached(old, s, maxcol)
+        yield "editor-untouched", both(editor_same(old, s), flag_same(old, s))
+
+    def effects(old, s, a, result):
+        _cache_effects(old, s, a.size[0])
+
+
+def cursor_is(canv, xy):
+    """the canvas has a cursor, at xy"""
+    cu = canv.cursor
+    if cu is None:
+        return False
+    if isinstance(cu, SOpt):
+        if cu.val is None:
+            return False
+        return both(neg(mk_bool(cu.isnone)), cu.val[0] == xy[0], cu.val[1] == xy[1])
+    return both(cu[0] == xy[0], cu[1] == xy[1])
+
+
+@contract(ED + "Edit.render", property=("C10", "C09", "C01"), contract_overrides={TX + "Text.render": text_render_on_edit}, **GEOKW)
+class render:
+    params = dict(size=Tup(Int), focus=Bool)
+    result = canvas_shape()
+    raises = ()
+    modifies = CACHE + ("_shift_view_to_cursor",)
+
+    def requires(s, a):
+        return a.size[0] >= 1
+
+    def ensures(old, s, a, r):
+        maxcol = a.size[0]
+        cursors = cur().ghost.get("cursors", [])
+        yield "as-wide-as-asked", r.ncols == maxcol
+        yield "as-many-rows-as-rows()-reports-for-that-width", r.nrows == nlines(Lay(old, maxcol))   # (Text.rows on an Edit: the same expression)
+        if not bool(a.focus):
+            yield "not-focused/no-cursor", both(opt_isnone(r.cursor) if r.cursor is not None else True, len(cursors) == 0)
+        else:
+            yield "focused/cursor-coordinates-asked-once", len(cursors) == 1
+            if len(cursors) == 1:
+                yield "focused/cursor-of-the-rendering-is-the-reported-cursor", cursor_is(r, cursors[0].xy)
+                c = cursors[0].cell
+                mine = CellOf(shown(old), Lay(old, maxcol), cursor_index(old), c.x, c.y, c.wj, c.held)
+                for label, f in mine.clauses():
+                    yield "focused/cursor-cell/" + label, f
+                for label, f in Cursor(mine, maxcol, cursors[0].xy).facts():
+                    yield "focused/" + label, f
+                yield "focused/cursor-inside-the-canvas-when-the-cursor-offset-is-displayed", implies(c.held, both(cursors[0].xy[0] < r.ncols, cursors[0].xy[1] < r.nrows))
+        yield "view-follows-the-cursor-exactly-when-focused", eq(s._shift_view_to_cursor, a.focus)
+        yield "layout-cached", layout_cached(old, s, maxcol)
+        yield "editor-untouched", editor_same(old, s)
+
+
+def _xc_original_fn():
+    """`Text.render.original_fn` (what Edit.render calls) IS the function defined as Text.render in urwid/widget/text.py:
+    the engine maps a real function object to the AST of `<module file>:<__qualname__>` (builtins_model.call_builtin)."""
+    from pyvc import source as SRC
+    from urwid.widget.text import Text as _T
+
+    fn = _T.render.original_fn
+    node = SRC.resolve(TX + "Text.render").node
+    first = min([node.lineno] + [d.lineno for d in node.decorator_list])
+    ok = fn.__qualname__ == "Text.render" and fn.__module__ == "urwid.widget.text" and fn.__code__.co_firstlineno == first and not hasattr(fn, "original_fn")
+    return "text-render-original-fn-is-the-body-of-text-render", ok, f"{fn.__module__}.{fn.__qualname__} at line {fn.__code__.co_firstlineno}, AST at line {first}"
+
+
+render.static_checks = [_xc_original_fn]
+
+
+# ------------------------------------------------------------------------------------------------ Edit.get_pref_col
+
+def pref_is(p, v):
+    """the stored preferred column `p` (None | int | 'left' | 'right') is the value v"""
+    return V.struct_eq(p, v)
+
+
+@contract(ED + "Edit.get_pref_col", property=("C10", "C09"), **GEOKW)
+class get_pref_col:
+    params = dict(size=Tup(Int))
+    result = PREF
+    raises = ()
+    modifies = CACHE + ("_shift_view_to_cursor",)
+
+    def requires(s, a):
+        return a.size[0] >= 1
+
+    def ensures(old, s, a, result):
+        maxcol = a.size[0]
+        pref, then = old.pref_col_maxcol
+        cursors = cur().ghost.get("cursors", [])
+        remembered = both(neg(opt_isnone(then)), val(then) == maxcol)
+        if bool(remembered):
+            yield "remembered-for-this-width/the-remembered-column", pref_is(result, pref)
+            yield "remembered-for-this-width/nothing-touched", both(len(cursors) == 0, flag_same(old, s), opt_eq(s._cache_maxcol, old._cache_maxcol))
+        else:
+            yield "not-remembered-for-this-width/cursor-coordinates-asked-once", len(cursors) == 1
+            if len(cursors) == 1:
+                yield "not-remembered-for-this-width/the-column-of-the-reported-cursor", pref_is(result, cursors[0].xy[0])
+                c = cursors[0].cell
+                mine = CellOf(shown(old), Lay(old, maxcol), cursor_index(old), c.x, c.y, c.wj, c.held)
+                for label, f in mine.clauses():
+                    yield "not-remembered-for-this-width/cursor-cell/" + label, f
+                for label, f in Cursor(mine, maxcol, cursors[0].xy).facts():
+                    yield "not-remembered-for-this-width/" + label, f
+        yield "editor-untouched", editor_same(old, s)
+
+    def pure_spec(old, a):
+        pref, then = old.pref_col_maxcol
+        if bool(both(neg(opt_isnone(then)), val(then) == a.size[0])):
+            return pref
+        return cursor_of(old, a.size[0]).xy[0]
+
+    ensures_callee = staticmethod(_nothing_more)
+
+    def effects(old, s, a, result):
+        pref, then = old.pref_col_maxcol
+        if not bool(both(neg(opt_isnone(then)), val(then) == a.size[0])):
+            _cache_effects(old, s, a.size[0])
+            s.fields["_shift_view_to_cursor"] = True
